@@ -60,6 +60,9 @@ PROPS["C01"] = {
 ATTACH["C02"] = {"ac": [("src/graph/mod.rs", "model.rs"), ("src/graph/query.rs", "query_ac.rs")]}
 PROPS["C02"] = {
     "harnesses": [
+        H("c02_neighbor_dups_ds", "ac", "directed shape #6 (node 2 has the predecessors 0,1 and the successor 0): get_neighbor_nodes(2) lists each neighbour exactly once", covers=["reached end"], bounds="3 nodes, 3 edges", timeout=1200),
+        H("c02_neighbor_dups_dm", "ac", "same on the directed multi-edge kind", covers=["reached end"], bounds="3 nodes, 3 edges", timeout=1200),
+    ] + [
         H(name, "ac", what, tier=tier, covers=covers, bounds="3 nodes (+1 absent name), <=3 stored edges, unwind 9", timeout=1200)
         for (name, call, tier, covers, what) in _gen.c02_cases()
     ],
